@@ -38,7 +38,11 @@ for pid in sorted(rows):
 miss = [(p, n) for p in rows for n, r in rows[p] if 'NOT DETECTED' in r or 'FALSE ALARM' in r]
 out.append('Misses and false alarms in this run: %s.' % (', '.join('%s %s' % x for x in miss) if miss else 'none'))
 out.append('')
-out.append('Seeded changes for properties without a check: none of the kept seeds belongs to a not-applicable property.')
+out.append('Seeded changes for properties without a check: none of the kept seeds belongs to a not-applicable property. One')
+out.append('third-round seed was produced against the clause of C16 that the C16 check does not claim ("after a refresh the')
+out.append("Spec's devices resolve to that file with precedence over every other directory\"): removing `delete(conflicts, name)`")
+out.append('from `refresh` - the reverse of the D1 repair. It is kept as `seeded/C01-3`, because it breaks C01 as well and')
+out.append("C01's check reports it; the C16 check does not see it, as section 4 says it would not.")
 out.append('')
 out.append('History of misses that led to stronger checks: `C08-annotation-parts` (a mutant that cannot panic because the')
 out.append('name has at least three bytes — an equivalent mutant for C08, replaced); `C16-prio-zero` (the hint spoke about the')
